@@ -48,6 +48,7 @@ def run(ctx):
     ctx.samples = [progs[0], progs[len(progs) // 2], progs[-1]]
     ctx.distinct = ac.distinct(progs)
     vlib.run_and_judge(ctx, progs, "Trace_Sinks.cfg", "Trace_Sinks.tla", "c14")
+    vlib.run_and_judge(ctx, progs[::4], "Trace_Sinks.cfg", "Trace_Sinks.tla", "c14chk", profile="checked")
     return vlib.finish(ctx, rule="objects: final tables of random and TLC-enumerated builder programs over all table kinds, AML trees of "
                        "the C06 generator (all constructors, boundary-sized bodies), stand-alone sub-structures incl. every structure "
                        "with a raw in-memory form; sinks: Vec, byte-only (default methods), override-all recorder, Checksum, Sdt, "
